@@ -376,6 +376,16 @@ func init() {
 			stmts(fd.Body.List, &out)
 			sb.WriteString("\ndef bucketBuilderWriteStmts : List String := " + LeanStrList(out) + "\n")
 		}
+		// round 12: TrieBucket.CollectKVs and TrieBucket.Unmarshal, statement by statement
+		for _, d := range []struct{ fn, name string }{{"CollectKVs", "collectKVsStmts"}, {"Unmarshal", "bucketUnmarshalStmts"}} {
+			fd := FindFunc(tb, "TrieBucket", d.fn)
+			if fd == nil || fd.Body == nil {
+				return "", fmt.Errorf("TrieBucket.%s not found", d.fn)
+			}
+			var out []string
+			stmts(fd.Body.List, &out)
+			sb.WriteString("\ndef " + d.name + " : List String := " + LeanStrList(out) + "\n")
+		}
 		mg, err := parse("index/v1/index_kv_merger.go")
 		if err != nil {
 			return "", err
